@@ -217,6 +217,7 @@ def handleSimOracle (st : OracleSt) (prop : String) (opToks out : List String) :
   let (head, dump) := (out.takeWhile (· ≠ "|"), (out.dropWhile (· ≠ "|")).drop 1)
   let logStr := ((head.find? (·.startsWith "w=")).map (fun t => (t.drop 2).toString)).getD ""
   let log := if logStr == "" then [] else logStr.splitOn ","
+  let res := ((head.find? (·.startsWith "res=")).map (fun t => (t.drop 4).toString)).getD ""
   match P.run pSimCmd opToks with
   | none => (st, "bad-op")
   | some cmd =>
@@ -237,7 +238,7 @@ def handleSimOracle (st : OracleSt) (prop : String) (opToks out : List String) :
           | "C03" => oracleC03seq o kind log cur
           | "C04" => oracleC04 o kind log cur
           | "C06" => oracleC06 o kind log cur
-          | "C07" => oracleC07 o kind log cur
+          | "C07" => oracleC07 o kind log cur res
           | "C08" => oracleC08 o kind log cur
           | "C09" => oracleC09 o kind log cur
           | "C16" => oracleC16 o kind log cur
